@@ -24,4 +24,19 @@ OBLIGATIONS = {
         "C05.migration_band_partial", "C05.migration_band_clamped", "C05.migration_overshoot_fails",
         "C05.vpsZ_band", "C05.history_invariant", "C05.egg_history", "C05.sandeel_history",
     ],
+    "C07": [
+        "C07.chem_age_advance", "C07.chem_age_untouched", "C07.chem_alive_monotone", "C07.chem_death_iff",
+        "C07.chem_death_iff_horz", "C07.sed_age_advance", "C07.sed_alive_iff", "C07.mine_age_advance",
+        "C07.mine_alive_monotone", "C07.mine_alive_iff_resusp", "C07.sed_age_history",
+        "C07.degree_day_age", "C07.degree_day_monotone", "C07.larva_age_advance", "C07.lice_age_advance",
+        "C07.lice_alive_iff", "C07.lice_super", "C07.exp_rate_add", "C07.lice_survival_partition",
+        "C07.lice_survival_history", "C07.lice_one_day", "C07.shrimp_age_advance", "C07.vps_age_advance",
+        "C07.vps_alive_iff", "C07.dead_forever", "C07.sed_dead_forever", "C07.chem_dead_forever",
+        "RealInst.expLaws",
+    ],
+    "C10": [
+        "C10.update_perm", "C10.update_sublist", "C10.update_select", "C10.update_nil", "C10.update_pointwise",
+        "C10.stuck_ignores_others", "C10.stuck_cons_other", "C10.lookup_perm", "C10.stuck_perm",
+        "C10.new_particle_not_stuck",
+    ],
 }
